@@ -10,6 +10,7 @@ fresh template of the same tree; deadlock and lack of progress are
 violations as well ("every thread obtains exactly the result ...").
 """
 import hashlib
+import os
 import re
 
 from . import core
@@ -95,13 +96,17 @@ def gen_case(seed, tier):
             'restricted': r.random() < 0.25,
             # opcode-granular tracing crashes CPython 3.12.1 (segfault in
             # instruction instrumentation with several threads): not used
-            'opcode': False,
+            'opcode': 'store' if core.stream(seed, 'c18op').random() < float(
+                os.environ.get('VERIF_C18_STOREP', '0')) else False,
             'bad_source': r.random() < 0.03,
             'nsched': r.choice([12, 20, 30]) if tier == 'quick'
             else r.choice([30, 60, 100]),
             'sched_seed': r.randint(0, 10 ** 9), 'segments': None,
             'calls': r.choice([1, 1, 2]),
             'via_mapping': core.stream(seed, 'c18map').random() < 0.3,
+            # the steady state of a server: the shared template has served a
+            # request before the racing ones arrive
+            'prerendered': core.stream(seed, 'c18pre').random() < 0.3,
             'exhaust_one': tier == 'thorough' and r.random() < 0.3,
             'exhaust_handover': tier == 'thorough' and r.random() < 0.5}
     if family == 'tree':
@@ -432,6 +437,29 @@ def schedule_for(case, j, profiles, used_lines):
     k = case['nthreads']
     x = r.random()
     total = sum(len(p) for p in profiles)
+    if case['opcode'] == 'store' and r.random() < 0.4:
+        # split a line at one of its stores: thread a is parked right in
+        # front of a store instruction (it has read what the line reads),
+        # another thread runs for a while - into the middle of its own call
+        # - then a goes on to the end, then the rest
+        a = r.randrange(k)
+        prof = profiles[a]
+        labels = sorted(set(p for p in prof if p.endswith('+s')))
+        if labels:
+            fresh = [ln for ln in labels
+                     if (a, ln) not in used_lines] or labels
+            ln = r.choice(fresh)
+            used_lines.add((a, ln))
+            occ = [i for i, p in enumerate(prof) if p == ln]
+            n = occ[-1] if r.random() < 0.4 else r.choice(occ)
+            others = [t for t in range(k) if t != a]
+            r.shuffle(others)
+            b = others[0]
+            m = r.randrange(1, max(2, len(profiles[b]))) \
+                if r.random() < 0.7 else FOREVER
+            segs = [[a, n], [b, m], [a, FOREVER]] + \
+                [[t, FOREVER] for t in others]
+            return 'store_split', S.SegmentPolicy(segs), False
     if x < 0.30 and WRITES and any(WRITES):
         # park a thread right after one of its writes (each distinct write
         # line of the solo profile at most once per case), with or without
@@ -507,6 +535,11 @@ def schedule_for(case, j, profiles, used_lines):
 def run_schedule(case, policy, cap, track_writes=False):
     t = make_template(case)
     fns = [thread_fn(case, i, t) for i in range(case['nthreads'])]
+    if case.get('prerendered'):
+        try:
+            fns[case['sched_seed'] % len(fns)]()
+        except BaseException:      # noqa: B902  (a failing request is one too)
+            pass
     sim = S.Sim(fns, policy, cap, opcode=case['opcode'])
     sim.track_writes = track_writes
     sim.run()
@@ -666,7 +699,7 @@ def _run_case(case):
             extra['preempt_lines'].add(where)
             inside = True
             if where.startswith('DT_String.py'):
-                ln = int(where.split(':')[1])
+                ln = int(where.split(':')[1].split('+')[0])
                 if 100 < ln < 400:
                     probe('preempted_inside_cook')
             else:
@@ -754,7 +787,9 @@ def _run_case(case):
     if case['restricted']:
         probe('restricted_eval_variant')
     if case['opcode']:
-        probe('opcode_granularity')
+        probe('store_instruction_granularity')
+    if case.get('prerendered'):
+        probe('template_rendered_before_the_race')
     if case['bad_source'] and all(e[0][0] == 'raise' for e in expected):
         probe('parse_error_template')
     if 'sort_expr' in case['src']:
